@@ -131,7 +131,7 @@ theorem C10_fail_absorbing (c : RtCtx) (σ : CState) (h : c.M.failLike σ.state)
     FAIL too once the parser has failed (and OK otherwise, changing nothing). -/
 theorem C10_fail_absorbing_empty_chunk (c : RtCtx) (σ : CState) (chunk : List Nat) (pos : Nat)
     (hchk : c.needsEndCheck = true) (hempty : chunk.drop pos = []) :
-    c.feed σ chunk pos = (σ, if c.M.isFailState σ.state then "FAIL" else "OK", pos) := by
+    c.feed σ chunk pos = (σ, if c.emptyFails σ.state then "FAIL" else "OK", pos) := by
   simp [RtCtx.feed, hchk, hempty]
 
 /-- **A FAIL reported by `end()` is final too**: for a machine passing the decidable check
@@ -176,6 +176,58 @@ theorem C10_end_fail_is_final (c : RtCtx) (hok : c.M.endFailOK c.semOpts = true)
       · exact Or.inl h1
       · exact Or.inr (Or.inl h2)
       · exact Or.inr (Or.inr h3)
+
+/-- the index `failTarget` is one the empty-chunk test of `feed` answers FAIL for (parsers with `end()`) -/
+theorem emptyFails_failTarget (c : RtCtx) (heof : c.ro.eof = true) : c.emptyFails c.M.failTarget = true := by
+  unfold RtCtx.emptyFails Machine.failTarget Machine.failIdx
+  cases hf : (List.range c.M.states.size).find? (fun i => (c.M.states.getD i default).kind == .fail) with
+  | none => simp [heof]
+  | some i =>
+    have hp := List.find?_some hf
+    have hm := List.mem_of_find?_eq_some hf
+    simp only [List.mem_range] at hm
+    simp only [Option.map_some, Option.getD_some, Bool.or_eq_true]
+    left
+    simp only [Machine.isFailState, Machine.st, Bool.and_eq_true, decide_eq_true_eq]
+    refine ⟨⟨Int.natCast_nonneg i, by simpa using hm⟩, ?_⟩
+    simpa using hp
+
+/-- **… also for an empty chunk**: for a machine passing the decidable check `endFailExact`
+    (evaluated on every exported machine), once `end()` has answered FAIL from a state of the table,
+    a `feed` call with an empty chunk — which answers before looking at any byte — says FAIL too,
+    whether or not the table still has a fail state. -/
+theorem C10_end_fail_then_empty_chunk (c : RtCtx) (hex : c.M.endFailExact c.semOpts = true)
+    (heof : c.ro.eof = true) (hchk : c.needsEndCheck = true) (σ : CState)
+    (hin : 0 ≤ σ.state ∧ σ.state.toNat < c.M.states.size)
+    (h : (c.endCall σ).2 = "FAIL") (chunk : List Nat) (pos : Nat) (hempty : chunk.drop pos = []) :
+    (c.feed (c.endCall σ).1 chunk pos).2.1 = "FAIL" := by
+  have hst : (c.endCall σ).1.state = c.M.failTarget := by
+    have hmem := run_mem_paths (c.oracle false σ) (c.M.call c.semOpts σ.state symEnd) []
+    simp only [Machine.endFailExact, List.all_eq_true, List.mem_range] at hex
+    have hcall := hex σ.state.toNat hin.2
+    have hs : ((σ.state.toNat : Nat) : Int) = σ.state := Int.toNat_of_nonneg hin.1
+    rw [hs] at hcall
+    have hleaf := hcall _ hmem
+    simp only [RtCtx.endCall] at h ⊢
+    rw [runTree_eq_run_nil] at h ⊢
+    simp only at h ⊢
+    generalize ((c.M.call c.semOpts σ.state symEnd).run (c.oracle false σ) []).2 = leaf at h hleaf ⊢
+    cases leaf with
+    | next s adv => simp at h
+    | yielded code st adv =>
+      simp only at h
+      exact absurd h (by
+        intro e
+        have : ("YIELD_" ++ code).length = 4 := by rw [e]; rfl
+        simp [String.length_append] at this
+        have h6 : "YIELD_".length = 6 := rfl
+        omega)
+    | ret code st adv =>
+      simp only at h hleaf ⊢
+      subst h
+      simpa using hleaf
+  rw [C10_fail_absorbing_empty_chunk c _ chunk pos hchk hempty, hst, emptyFails_failTarget c heof]
+  rfl
 
 /-- **Yield resumption is exact**: cutting the input anywhere and running the two parts one after
     the other gives the session of the whole — the re-invocations after yields included. -/
